@@ -48,7 +48,19 @@ pub fn build_history(rng: &mut Rng, n: usize) -> Vec<Call> {
     while h.len() < n {
         let (ev, s) = exprs[rng.below(exprs.len())].clone();
         let pool = ph_pool(ev);
-        match rng.below(4) {
+        match rng.below(5) {
+            4 => {
+                // placeholders that compare equal (or hash alike) but are different values: a cache keyed
+                // on == or on the numeric value would confuse them
+                let groups: Vec<Vec<Val>> = confusable(ev);
+                let g = &groups[rng.below(groups.len())];
+                let s2 = if s.contains('@') || rng.chance(1, 2) { s.clone() } else { (*rng.pick(&["@", "1/@", "@*1", "abs(@)-@", "@+@", "sqrt(@)", "@/3"][..])).to_string() };
+                let mut order: Vec<usize> = (0..g.len()).collect();
+                rng.shuffle(&mut order);
+                for k in order {
+                    h.push(Call { ev, expr: s2.clone(), ph: g[k] });
+                }
+            }
             0 => {
                 // same expression, changing placeholders, back to back
                 for _ in 0..2 + rng.below(3) {
@@ -73,6 +85,28 @@ pub fn build_history(rng: &mut Rng, n: usize) -> Vec<Call> {
     }
     h.truncate(n);
     h
+}
+
+/// groups of placeholder values that are equal under ==, or numerically equal, yet distinct
+fn confusable(ev: Ev) -> Vec<Vec<Val>> {
+    use crate::val::DecV;
+    let d = |neg, mant, scale| Val::D(DecV { neg, mant, scale });
+    match ev {
+        Ev::F64 => vec![
+            vec![Val::F(0.0), Val::F(-0.0)],
+            vec![Val::F(f64::NAN), Val::F(f64::from_bits(0x7ff8_0000_0000_0001)), Val::F(f64::from_bits(0xfff8_0000_0000_0000))],
+            vec![Val::F(1.0), Val::F(1.0000000000000002), Val::F(0.9999999999999999)],
+        ],
+        Ev::I64 => vec![vec![Val::I(0), Val::I(1), Val::I(-1)], vec![Val::I(i64::MAX), Val::I(i64::MIN), Val::I(i64::MAX - 1)], vec![Val::I(4294967296), Val::I(0), Val::I(8589934592)]],
+        Ev::Dec => vec![vec![d(false, 1, 0), d(false, 10, 1), d(false, 100, 2), d(false, 1000000, 6)], vec![d(false, 0, 0), d(true, 0, 0), d(false, 0, 28), d(true, 0, 5)], vec![d(false, 25, 1), d(false, 250, 2)]],
+        Ev::Cpx => vec![vec![Val::C(0.0, 0.0), Val::C(-0.0, 0.0), Val::C(0.0, -0.0), Val::C(-0.0, -0.0)], vec![Val::C(1.0, 0.0), Val::C(1.0, -0.0)], vec![Val::C(f64::NAN, 1.0), Val::C(f64::from_bits(0x7ff8_0000_0000_0001), 1.0)]],
+        Ev::Num => vec![
+            vec![Val::NI(5), Val::NF(5.0)],
+            vec![Val::NI(0), Val::NF(0.0), Val::NF(-0.0)],
+            vec![Val::NI(i64::MAX), Val::NF(9223372036854775807.0)],
+            vec![Val::NF(f64::NAN), Val::NF(f64::from_bits(0x7ff8_0000_0000_0001))],
+        ],
+    }
 }
 
 fn run_call(c: &Call, yield_every: u64) -> Outcome {
